@@ -1,3 +1,64 @@
-From Sigtools.Model Require Import Base Bind Algebra.
-Theorem C01_placeholder : True. Proof. exact I. Qed.
-Print Assumptions C01_placeholder.
+(* C01 — merge: a call accepted by the merged signature is accepted by every input.
+   Only statements, each closed by `exact <lemma>`; proofs live in Proofs/. *)
+From Sigtools.Model Require Import Base Bind Roles Algebra Universe.
+From Sigtools.Proofs Require Import SmallModel Basics SweepDefs Bounded.
+From Coq Require Import Lia.
+
+(* Small-model theorem for call shapes: acceptance of ANY call by ANY signature is
+   decided by its canonical representative in a finite family. *)
+Theorem C01_small_model ps M ns fresh c :
+  (length (positional ps) <= M)%nat -> incl (names_of ps) ns -> ~ In fresh ns ->
+  accepts ps (canon M ns fresh c) = accepts ps c.
+Proof. exact (accepts_canon ps M ns fresh c). Qed.
+Print Assumptions C01_small_model.
+
+(* The extracted decider used on the implementation's outputs is complete: when it
+   finds no counter-example among the finite family, the result is sound for ALL
+   non-colliding calls (unbounded in signatures and calls). *)
+Theorem C01_decider_complete r inputs :
+  sound_cex r inputs = None ->
+  forall c, noncolliding c r inputs = true -> accepts r c = true ->
+            forallb (fun s => accepts s c) inputs = true.
+Proof. exact (sound_cex_complete r inputs). Qed.
+Print Assumptions C01_decider_complete.
+
+Theorem C01_decider_pure_complete r inputs :
+  sound_pure_cex r inputs = None ->
+  forall c, (npos c = 0%nat \/ kws c = []) -> accepts r c = true ->
+            forallb (fun s => accepts s c) inputs = true.
+Proof. exact (sound_pure_cex_complete r inputs). Qed.
+Print Assumptions C01_decider_pure_complete.
+
+(* ... and every counter-example it returns is a genuine one *)
+Theorem C01_decider_witness r inputs c :
+  sound_cex r inputs = Some c ->
+  noncolliding c r inputs = true /\ accepts r c = true /\
+  forallb (fun s => accepts s c) inputs = false.
+Proof. exact (sound_cex_witness r inputs c). Qed.
+Print Assumptions C01_decider_witness.
+
+(* Bounded (bound in the statement): every pair of U(2,{a,b}) (220 signatures), ALL calls *)
+Theorem C01_sound_pairs_U2 a b r :
+  In a U2ab -> In b U2ab -> merge [mk a; mk b] = Ok r ->
+  (forall c, (npos c = 0%nat \/ kws c = []) -> accepts (params r) c = true ->
+             accepts a c = true /\ accepts b c = true) /\
+  (role_consistent [a; b] = true ->
+   forall c, noncolliding c (params r) [a; b] = true -> accepts (params r) c = true ->
+             accepts a c = true /\ accepts b c = true).
+Proof. exact (merge_sound_pairs_U2 a b r). Qed.
+Print Assumptions C01_sound_pairs_U2.
+
+(* Bounded: every triple of U(1,{a,b}) through the n-ary fold over buckets, ALL calls *)
+Theorem C01_sound_triples_U1 a b c0 r :
+  In a U1ab -> In b U1ab -> In c0 U1ab -> merge [mk a; mk b; mk c0] = Ok r ->
+  (forall c, (npos c = 0%nat \/ kws c = []) -> accepts (params r) c = true ->
+             forallb (fun s => accepts s c) [a; b; c0] = true) /\
+  (role_consistent [a; b; c0] = true ->
+   forall c, noncolliding c (params r) [a; b; c0] = true -> accepts (params r) c = true ->
+             forallb (fun s => accepts s c) [a; b; c0] = true).
+Proof. exact (merge_sound_triples_U1 a b c0 r). Qed.
+Print Assumptions C01_sound_triples_U1.
+
+Example C01_universe_nonempty : length U2ab = 220%nat /\ length U1ab = 52%nat.
+Proof. split; vm_compute; reflexivity. Qed.
+Print Assumptions C01_universe_nonempty.
